@@ -191,6 +191,10 @@ func drive(p *props.Prop) int {
 	for _, f := range old {
 		_ = os.Remove(f)
 	}
+	stale, _ := filepath.Glob(filepath.Join(*fRoot, "replays", p.ID, fmt.Sprintf("%s-%s-seed%d-*.json", p.ID, *fTier, *fSeed)))
+	for _, f := range stale {
+		_ = os.Remove(f)
+	}
 	nshards := 16
 	if p.Shards != nil {
 		nshards = p.Shards(*fTier)
